@@ -443,7 +443,7 @@ class Structure(list):
         def setlat(a):
             return (setattr(a, "lattice", self.lattice), a)[-1]
 
-        super(Structure, self).extend(setlat(a) for a in newatoms)
+        super(Structure, self).extend([setlat(a) for a in newatoms])
         return
 
     def __getitem__(self, idx):
